@@ -42,8 +42,8 @@ M = [
  ("C06-fill-keeps-input-type", "C06", "circuitgraph/circuit.py",
   '        for n in self.blackboxes[name].inputs():\n            self.set_type(f"{name}_{n}", "buf")\n', ''),
  ("C06-subcircuit-bb-unprefixed", "C06", "circuitgraph/circuit.py",
-  '        for bb_name, bb in sc.blackboxes.items():\n            self.blackboxes[f"{name}_{bb_name}"] = bb\n\n        # make connections',
-  '        for bb_name, bb in sc.blackboxes.items():\n            self.blackboxes[f"{name}_{bb_name}" if len(sc.blackboxes) < 2 else bb_name] = bb\n\n        # make connections'),
+  '        for bb_name, bb in sc_blackboxes:\n            self.blackboxes[f"{name}_{bb_name}"] = bb\n\n        # make connections',
+  '        for bb_name, bb in sc_blackboxes:\n            self.blackboxes[f"{name}_{bb_name}" if len(sc_blackboxes) < 2 else bb_name] = bb\n\n        # make connections'),
  ("C07-connect-not-multi-fanin", "C07", "circuitgraph/circuit.py",
   'if t in ["bb_input", "buf", "not"]:\n                if len(self.fanin(v)) + len(us) > 1:',
   'if t in ["bb_input", "buf"]:\n                if len(self.fanin(v)) + len(us) > 1:'),
